@@ -154,6 +154,18 @@ struct Registrar {
 #define VF_REGISTER(tid, ...) \
   static ::vf::Registrar VF_CAT(vf_reg_, __COUNTER__){tid, ::vf::MakeOps<__VA_ARGS__>()}
 
+// Rows of the generated name table (names_gen.cpp): hashes and selectors computed at compile time.
+struct NameRow {
+  const char* kind;           // table | iface64 | iface32
+  std::vector<uint8_t> name;
+  uint64_t hash_ct;           // EntryList::Hash / NOP__INTERFACE::Hash (compile time)
+  uint64_t selector_ct;       // selector of method "Ping" (interfaces)
+  int selector_width;
+  std::vector<uint8_t> wire;  // encoded table (tables): carries the hash on the wire
+  uint64_t hash_rt;           // the same hash computed at run time over the same bytes
+};
+std::vector<NameRow>& NameRows();
+
 // Command handlers other than the codec ones register themselves here.
 using CommandFn = void (*)(const Json& cmd, JsonOut& o);
 std::map<std::string, CommandFn>& Commands();
